@@ -7,6 +7,8 @@ package main
 import (
 	"bytes"
 	"fmt"
+	"github.com/cosmos/cosmos-proto/anyutil"
+	"google.golang.org/protobuf/types/known/anypb"
 	"math/rand"
 	"reflect"
 	"strings"
@@ -430,6 +432,80 @@ func aliasCase(rep *Report, arena *guardArena, s *glue.Subject, d MD, idx int) {
 		rep.Violate("C07", "alias/marshal-output-aliases-message", tn, oc.name+": changing the message's byte slices changed the bytes returned earlier", rc)
 	}
 	rep.Count("C07", "output-alias-checks/"+oc.name, 1)
+
+	// ---- (e) decoding into a message that is already in use.  The input may be the very buffer one of the message's
+	// own bytes fields (or its unknown-field set) still refers to ("unwrap in place"): Unmarshal must not write into it.
+	if idx%4 == 2 {
+		for which := 0; which < 2; which++ {
+			E := BuildStruct(s.Zero, v)
+			enc := make([]byte, len(stream), len(stream)+64)
+			copy(enc, stream)
+			if which == 0 {
+				bf := topBytesFields(reflect.ValueOf(E))
+				if len(bf) == 0 {
+					continue
+				}
+				bf[idx/4%len(bf)].SetBytes(enc)
+			} else {
+				E.ProtoReflect().SetUnknown(enc)
+			}
+			pan, pmsg = safely(func() { uerr = proto.Unmarshal(enc, E) })
+			rep.Count("C07", "unwrap-in-place-decodes", 1)
+			if pan {
+				continue // totality is C06's
+			}
+			if !bytes.Equal(enc, stream) {
+				rep.Violate("C07", "alias/unmarshal-modifies-input(buffer-held-by-the-target)", tn, fmt.Sprintf("Unmarshal into a message whose %s referred to the input buffer changed the input: %s", []string{"bytes field", "unknown-field set"}[which], firstDiff(enc, stream)), rc)
+				break
+			}
+			if uerr == nil {
+				// and the result does not alias it either
+				before := SpecEncode(Canon(StructToIR(E)))
+				for i := range enc {
+					enc[i] ^= 0x5a
+				}
+				if after := SpecEncode(Canon(StructToIR(E))); !bytes.Equal(before, after) {
+					rep.Violate("C07", "alias/message-aliases-input(changed)", tn, "after decoding in place, overwriting the input changed the message: "+firstDiff(before, after), rc)
+					break
+				}
+			}
+		}
+	}
+	// ---- (f) packing into an Any whose old value buffer is shared with one of the message's bytes fields: the pack
+	// reads the message and may not write to it
+	if idx%4 == 0 {
+		E := BuildStruct(s.Zero, v)
+		if bf := topBytesFields(reflect.ValueOf(E)); len(bf) > 0 {
+			big := make([]byte, 8, 8+2*len(stream)+512)
+			copy(big, "payload!")
+			bf[idx/4%len(bf)].SetBytes(big[:8])
+			dst := &anypb.Any{TypeUrl: "/old", Value: big[:8]}
+			fp := Fingerprint(E)
+			pan, pmsg = safely(func() { _ = anyutil.MarshalFrom(dst, E, proto.MarshalOptions{}) })
+			rep.Count("C07", "readonly-op/anyutil.MarshalFrom(shared old buffer)", 1)
+			if Fingerprint(E) != fp {
+				rep.Violate("C07", "alias/readonly-call-mutates-struct/anyutil.MarshalFrom", tn, fmt.Sprintf("packing the message into an Any whose previous value buffer it shares changed the message (panicked=%v %s)", pan, trunc(pmsg)), rc)
+			}
+		}
+	}
+}
+
+// topBytesFields returns the settable []byte fields of the message struct itself (singular bytes fields).
+func topBytesFields(rv reflect.Value) []reflect.Value {
+	for rv.Kind() == reflect.Ptr {
+		rv = rv.Elem()
+	}
+	var out []reflect.Value
+	if rv.Kind() != reflect.Struct {
+		return nil
+	}
+	for i := 0; i < rv.NumField(); i++ {
+		sf := rv.Type().Field(i)
+		if sf.PkgPath == "" && sf.Type.Kind() == reflect.Slice && sf.Type.Elem().Kind() == reflect.Uint8 && strings.HasPrefix(sf.Tag.Get("protobuf"), "bytes,") {
+			out = append(out, rv.Field(i))
+		}
+	}
+	return out
 }
 
 // nilOutMessages sets about half of the message-typed list elements and map
